@@ -121,10 +121,10 @@ Print Assumptions commit_is_unique_per_version.
    operation per client); a Write rests on a location entry from GetTracts, a Create reaches a server only
    while the tract is not durable yet, an AckExtend names the consecutive tracts ExtendBlob handed out and hosts
    that accepted the write; curator tasks start under fresh ids; no injected probe RPC (event 17); and the
-   carve-outs: no superseded PullTract takes effect (Sched.stale_pull, the F21 trigger), no crash in the
-   middle of a PullTract, no request executed twice.
-   Per level: L=1 requests are delivered or executed with a delayed reply only; L=2 adds lost replies and
-   requests that fail without executing; L=3 adds tractserver restarts; L=4 adds leader changes.
+   carve-outs: no superseded PullTract takes effect (Sched.stale_pull, the F21 trigger) and no crash in the
+   middle of a PullTract.
+   Per level: L=1 requests are delivered or executed with a delayed reply only; L=2 adds lost replies,
+   requests executed twice and requests that fail without executing; L=3 adds tractserver restarts; L=4 adds leader changes.
    Re-replication, fixVersion, stale client caches, delayed replies and ChangeTract probes occur at every level. *)
 Definition acked_count (st : state) : Z := Z.of_nat (length (s_acked st)).
 Definition max_version (st : state) : Z := fold_right (fun '(_, (dv, _)) a => Z.max dv a) 0 (s_dtr st).
@@ -141,7 +141,7 @@ Example c01_partial_no_faults_nonvacuous :
   (3 <=? acked_count (run_state init_state l1_ops)) && (2 <=? max_version (run_state init_state l1_ops)) = true.
 Proof. vm_compute. reflexivity. Qed.
 
-(* [PARTIAL] c01_partial_lost_replies - the same statement along every schedule of level 2 which adds lost replies and requests that fail without executing to level 1. A request executed twice is not in the alphabet yet *)
+(* [PARTIAL] c01_partial_lost_replies - the same statement along every schedule of level 2 which adds lost replies requests executed twice and requests that fail without executing to level 1 *)
 Theorem c01_partial_lost_replies : forall evs,
   ok_run 2 init_state evs = true ->
   forall blob tract host p, 0 <= p < TL -> vis_ok (run_state init_state evs) blob tract host p = true.
@@ -151,6 +151,12 @@ Print Assumptions c01_partial_lost_replies.
 Example c01_partial_lost_replies_nonvacuous :
   ok_run 2 init_state l2_ops && negb (ok_run 1 init_state l2_ops) &&
   (2 <=? acked_count (run_state init_state l2_ops)) && (2 <=? max_version (run_state init_state l2_ops)) = true.
+Proof. vm_compute. reflexivity. Qed.
+
+Example c01_partial_lost_replies_nonvacuous_twice :
+  ok_run 2 init_state l2b_ops && negb (ok_run 1 init_state l2b_ops) &&
+  existsb (fun ev => (hd 0 ev =? 7) && (nth 1 ev 0 =? 3)) l2b_ops && existsb (fun ev => (hd 0 ev =? 7) && (nth 1 ev 0 =? 2)) l2b_ops &&
+  (2 <=? acked_count (run_state init_state l2b_ops)) = true.
 Proof. vm_compute. reflexivity. Qed.
 
 (* [PARTIAL] c01_partial_restart - the same statement along every schedule of level 3 which adds tractserver restarts to level 2. A crash in the middle of PullTract is not in the alphabet because the model like the code leaves an empty copy that already carries the version *)
@@ -165,7 +171,7 @@ Example c01_partial_restart_nonvacuous :
   (2 <=? acked_count (run_state init_state l3_ops)) && (4 <=? max_version (run_state init_state l3_ops)) = true.
 Proof. vm_compute. reflexivity. Qed.
 
-(* [PARTIAL] c01_acked_write_visible_except_late_repull - the same statement along every schedule of level 4 which adds leader changes so that superseded incarnations keep running their tasks. The F21 trigger is carved out as the decidable side condition Sched.stale_pull - no PullTract whose requested version is already committed executes at a server whose copy is absent or not newer than the request. There is no further hypothesis. It is tagged PARTIAL and not FULL only because two fault classes of the property are still outside the alphabet - a crash in the middle of PullTract and a request executed twice *)
+(* [PARTIAL] c01_acked_write_visible_except_late_repull - the same statement along every schedule of level 4 which adds leader changes so that superseded incarnations keep running their tasks. The F21 trigger is carved out as the decidable side condition Sched.stale_pull - no PullTract whose requested version is already committed executes at a server whose copy is absent or not newer than the request. There is no further hypothesis. It is tagged PARTIAL and not FULL only because one fault class of the property is still outside the alphabet - a crash in the middle of PullTract which like in the code leaves an empty copy that already carries the version *)
 Theorem c01_acked_write_visible_except_late_repull : forall evs,
   ok_run 4 init_state evs = true ->
   forall blob tract host p, 0 <= p < TL -> vis_ok (run_state init_state evs) blob tract host p = true.
